@@ -14,7 +14,8 @@ def qtxt(q):
 def history(rng, fractional=True):
     lines = ["predicate A(real x) : Interval { duration >= 1.0; }",
              "predicate B() : Impulse { }",
-             "predicate C(real y) : Interval { duration >= 0.5; goal b = new B(); b.at >= start; b.at <= end; }"]
+             "predicate C(real y) : Interval { duration >= 0.5; goal b = new B(); b.at >= start; b.at <= end; }",
+             "predicate D(bool p) : Interval { duration >= 1.0; }"]
     n = rng.randint(1, 5)
     atoms = []      # (name, kind)
     cons = []       # ("ge", (name, point), (name, point), offset):  first >= second + offset
@@ -35,6 +36,12 @@ def history(rng, fractional=True):
             d = F(rng.randint(1, 6), rng.choice([1, 2]) if fractional else 1)
             lines.append(f"{name}.duration >= {num_text(d)};")
             cons.append(("dur", name, d))
+    if rng.random() < 0.3:
+        # an interval with a boolean parameter that the search decides (false in the cheaper branch): frozen when it starts
+        name = f"d{n}"
+        lines.append(f"goal {name} = new D();")
+        lines.append("{ " + f"!{name}.p;" + " } or { " + f"{name}.p;" + (f" {name}.start >= {num_text(F(rng.randint(2, 6)))};" if rng.random() < 0.5 else "") + " }")
+        atoms.append((name, "D"))
     for _ in range(rng.randint(0, 3)):
         if len(atoms) < 2:
             break
